@@ -41,8 +41,9 @@ Without(G, i) == SubSeq(G, 1, i - 1) \o SubSeq(G, i + 1, Len(G))
 Boundary(h) == {1, 2, h - 1, h, h + 1, 2 * h - 1, 2 * h, 2 * h + 1, 3 * h, 3 * h + 1, 200}
 
 VARIABLE x
-Init == \E d \in FixedDigests, kl \in KeyLens, ml \in MsgLens, fill \in {0, 1}, n \in UNION {Boundary(DigestSize(dd)) : dd \in FixedDigests} :
-           x = [dig |-> d, k |-> Rep(5 + fill, kl), m |-> [i \in 1..ml |-> (i * (fill + 1)) % 3], n |-> n]
+Init == \E d \in FixedDigests, kl \in KeyLens, ml \in MsgLens, fill \in {0, 1} :
+          \E n \in Boundary(DigestSize(d)) :
+             x = [dig |-> d, k |-> <<>> \o Rep(5 + fill, kl), m |-> <<>> \o [i \in 1..ml |-> (i * (fill + 1)) % 3], n |-> n]
 Next == UNCHANGED x
 Spec == Init /\ [][Next]_x
 
